@@ -374,10 +374,10 @@ func outLast() any                               { return nil }
 //@ requires node != nil
 //@ requires unwrap && exec.path.IsLax() ==> found != nil
 //@ loop 1 invariant [C20 C05] no-pending: pendingErr() == nil && !pendingFailed()
-//@ ensures [C01] direct: !(unwrap && exec.path.IsLax()) ==> ncalls(exec.executeItem) == 1 && callarg[*valueList](exec.executeItem, "found") == found && callarg[any](exec.executeItem, "value") == value && r0 == callret[resultStatus](exec.executeItem, 0) && r1 == callret[error](exec.executeItem, 1)
-//@ ensures [C01] collected: unwrap && exec.path.IsLax() ==> callarg[any](exec.executeItem, "value") == value && callarg[ast.Node](exec.executeItem, "node") == node && fresh(callarg[*valueList](exec.executeItem, "found"))
-//@ ensures [C01] collected-failed: unwrap && exec.path.IsLax() && callret[resultStatus](exec.executeItem, 0) == statusFailed ==> r0 == statusFailed && r1 == callret[error](exec.executeItem, 1)
-//@ ensures [C01] collected-ok: unwrap && exec.path.IsLax() && callret[resultStatus](exec.executeItem, 0) != statusFailed ==> r0 == statusOK && r1 == nil
+//@ ensures [C01 C13] direct: !(unwrap && exec.path.IsLax()) ==> ncalls(exec.executeItem) == 1 && callarg[*valueList](exec.executeItem, "found") == found && callarg[any](exec.executeItem, "value") == value && r0 == callret[resultStatus](exec.executeItem, 0) && r1 == callret[error](exec.executeItem, 1)
+//@ ensures [C01 C13] collected: unwrap && exec.path.IsLax() ==> callarg[any](exec.executeItem, "value") == value && callarg[ast.Node](exec.executeItem, "node") == node && fresh(callarg[*valueList](exec.executeItem, "found"))
+//@ ensures [C01 C13] collected-failed: unwrap && exec.path.IsLax() && callret[resultStatus](exec.executeItem, 0) == statusFailed ==> r0 == statusFailed && r1 == callret[error](exec.executeItem, 1)
+//@ ensures [C01 C13] collected-ok: unwrap && exec.path.IsLax() && callret[resultStatus](exec.executeItem, 0) != statusFailed ==> r0 == statusOK && r1 == nil
 
 //@ func (*Executor).executeItemUnwrapTargetArray
 //@ props C01 C07
@@ -427,6 +427,7 @@ func outLast() any                               { return nil }
 
 //@ func (*Executor).execUnaryNode
 //@ props C01 C10 C13
+//@ atcall executeNextItem assert [C09 C10] outer-item-again: exec.current == old(exec.current)
 //@ ensures [C10] filter-unwrap: node.Operator() == ast.UnaryFilter && unwrap && is[[]any](value) ==> ncalls(exec.executeItemUnwrapTargetArray) == 1 && callarg[any](exec.executeItemUnwrapTargetArray, "value") == value && callarg[*valueList](exec.executeItemUnwrapTargetArray, "found") == found && ncalls(exec.executeNestedBoolItem) == 0 && r0 == callret[resultStatus](exec.executeItemUnwrapTargetArray, 0) && r1 == callret[error](exec.executeItemUnwrapTargetArray, 1)
 //@ ensures [C10] filter-eval: node.Operator() == ast.UnaryFilter && !(unwrap && is[[]any](value)) ==> ncalls(exec.executeNestedBoolItem) == 1 && callarg[any](exec.executeNestedBoolItem, "value") == value && callarg[ast.Node](exec.executeNestedBoolItem, "node") == node.Operand()
 //@ ensures [C10] filter-keep: node.Operator() == ast.UnaryFilter && !(unwrap && is[[]any](value)) && callret[predOutcome](exec.executeNestedBoolItem, 0) == predTrue ==> ncalls(exec.executeNextItem) == 1 && callarg[any](exec.executeNextItem, "value") == value && callarg[*valueList](exec.executeNextItem, "found") == found && r0 == callret[resultStatus](exec.executeNextItem, 0) && r1 == callret[error](exec.executeNextItem, 1)
@@ -563,8 +564,8 @@ func isUnknownSpec(a predOutcome) predOutcome {
 //@ ensures [C11 C20] right-error: (node.Operator() == ast.BinaryAnd || node.Operator() == ast.BinaryOr) && ncalls(exec.executeBoolItem) == 2 && callret[error](exec.executeBoolItem, 1) != nil ==> r1 == callret[error](exec.executeBoolItem, 1) && r0 == predUnknown
 //@ ensures [C11] operands: (node.Operator() == ast.BinaryAnd || node.Operator() == ast.BinaryOr) ==> ncalls(exec.executeBoolItem) >= 1 && ncalls(exec.executeBoolItem) <= 2 && ncalls(exec.executePredicate) == 0
 //@ atcall executeBoolItem assert [C11 C09] same-item: arg_value == value && !arg_canHaveNext && (arg_node == node.Left() || arg_node == node.Right())
-//@ ensures [C12] comparison: node.Operator() >= ast.BinaryEqual && node.Operator() <= ast.BinaryGreaterOrEqual ==> ncalls(exec.executePredicate) == 1 && callarg[ast.Node](exec.executePredicate, "left") == node.Left() && callarg[ast.Node](exec.executePredicate, "right") == node.Right() && callarg[any](exec.executePredicate, "value") == value && callarg[bool](exec.executePredicate, "unwrapRightArg") && r0 == callret[predOutcome](exec.executePredicate, 0) && r1 == callret[error](exec.executePredicate, 1)
-//@ ensures [C12 C01] starts-with: node.Operator() == ast.BinaryStartsWith ==> ncalls(exec.executePredicate) == 1 && !callarg[bool](exec.executePredicate, "unwrapRightArg") && callarg[ast.Node](exec.executePredicate, "left") == node.Left() && callarg[ast.Node](exec.executePredicate, "right") == node.Right() && r0 == callret[predOutcome](exec.executePredicate, 0) && r1 == callret[error](exec.executePredicate, 1)
+//@ ensures [C12 C10] comparison: node.Operator() >= ast.BinaryEqual && node.Operator() <= ast.BinaryGreaterOrEqual ==> ncalls(exec.executePredicate) == 1 && callarg[ast.Node](exec.executePredicate, "left") == node.Left() && callarg[ast.Node](exec.executePredicate, "right") == node.Right() && callarg[any](exec.executePredicate, "value") == value && callarg[bool](exec.executePredicate, "unwrapRightArg") && r0 == callret[predOutcome](exec.executePredicate, 0) && r1 == callret[error](exec.executePredicate, 1)
+//@ ensures [C12 C10 C01] starts-with: node.Operator() == ast.BinaryStartsWith ==> ncalls(exec.executePredicate) == 1 && !callarg[bool](exec.executePredicate, "unwrapRightArg") && callarg[ast.Node](exec.executePredicate, "left") == node.Left() && callarg[ast.Node](exec.executePredicate, "right") == node.Right() && r0 == callret[predOutcome](exec.executePredicate, 0) && r1 == callret[error](exec.executePredicate, 1)
 
 //@ func (*Executor).executeUnaryBoolItem
 //@ props C11
@@ -599,6 +600,8 @@ func isUnknownSpec(a predOutcome) predOutcome {
 //@ ensures [C12] local-strict-false: exec.path.IsStrict() && r0 == predFalse ==> forall(func(i int, j int) bool { return implies(0 <= i && i < len(lSeq.list) && 0 <= j && j < len(rSeq.list), dynret[predOutcome](callback, 0, ctx, pred, lSeq.list[i], rSeq.list[j]) == predFalse) })
 //@ ensures [C12] true-witness: r0 == predTrue && !exec.path.IsStrict() ==> ncalls(callback) >= 1 && callret[predOutcome](callback, 0) == predTrue
 //@ ensures [C10 C08] operand-failure-is-unknown: pendingFailed() ==> r0 == predUnknown
+//@ ensures [C10 C11 C08] both-operands-evaluated: right != nil && firstret[resultStatus](exec.executeItemOptUnwrapResultSilent, 0) != statusFailed ==> ncalls(exec.executeItemOptUnwrapResultSilent) == 2
+//@ ensures [C10 C11] left-operand-evaluated: ncalls(exec.executeItemOptUnwrapResultSilent) >= 1
 
 // ---------------------------------------------------------------------------
 // literal.go, const.go: accessors, bindings
@@ -769,7 +772,7 @@ func isUnknownSpec(a predOutcome) predOutcome {
 //@ atcall executeNextItem assert [C13] int-negated: is[int64](v) && as[int64](v) != -9223372036854775808 ==> arg_value == any(dynret[int64](intCallback, 0, as[int64](v)))
 //@ atcall executeNextItem assert [C13] smallest-int-negated-as-float: is[int64](v) && as[int64](v) == -9223372036854775808 ==> arg_value == any(dynret[float64](floatCallback, 0, toFloat(as[int64](v))))
 //@ atcall executeNextItem assert [C13] float-negated: is[float64](v) ==> arg_value == any(dynret[float64](floatCallback, 0, as[float64](v)))
-//@ ensures [C13 C06] not-found-means-every-item-tried: r0 == statusNotFound && r1 == nil && !(node.Next() == nil && found == nil) ==> ncalls(exec.executeNextItem) == len(seq.list)
+//@ ensures [C13 C06 C09] not-found-means-every-item-tried: r0 == statusNotFound && r1 == nil && !(node.Next() == nil && found == nil) ==> ncalls(exec.executeNextItem) == len(seq.list)
 //@ ensures [C06 C13] exists-ok-comes-from-continuation: found == nil && node.Next() != nil && r0 == statusOK ==> ncalls(exec.executeNextItem) >= 1 && callret[resultStatus](exec.executeNextItem, 0) == statusOK
 
 // ---------------------------------------------------------------------------
